@@ -344,6 +344,9 @@ def spell(c, kind, rnd):
     if kind == "rgba3fn":
         # rgba() WITHOUT its optional alpha component: still an rgba() string
         return rnd.choice([f"rgba({r}, {g}, {b})", f"RGBA({r} {g} {b})", f"rgba({r},{g},{b})"])
+    if kind == "rgbfnopen":
+        # the function left open at the end of the value (CSS closes it there)
+        return rnd.choice([f"rgb({c[0]}, {c[1]}, {c[2]}", f"rgb({c[0]},{c[1]},{c[2]} ", f"RGB( {c[0]} , {c[1]} , {c[2]}"])
     if kind == "fractuple":
         # the colour as fractions of 255 in [0, 1] (floats): round(f * 255) is the channel
         return tuple(v / 255 for v in c) if c not in ((0, 0, 0), (1, 1, 1)) or True else c
@@ -401,7 +404,7 @@ def _rgb_to_hsl_int(c):
 
 
 SPELLS = ["hex6", "hex3", "hexnohash", "hexupper", "rgbfn", "rgbpct", "hslfn", "named", "tuple", "list", "rgbafn",
-          "hslafn", "rgbatuple", "tuplesub", "listsub", "hslodd", "rgbfnsub", "hslfnsub", "rgba3fn", "fractuple"]
+          "hslafn", "rgbatuple", "tuplesub", "listsub", "hslodd", "rgbfnsub", "hslfnsub", "rgba3fn", "fractuple", "rgbfnopen"]
 
 
 def rand_colour(rnd):
